@@ -12,7 +12,8 @@ for id in $ids; do
   if (cd $S/tree && git apply --unsafe-paths $d/patch.diff >/dev/null 2>&1); then
     out=$($HERE/bin/zverif -verif $S/verif -repo $S/tree -property all -tier quick 2>&1); rc=$?
     bad=$(echo "$out" | grep "^VIOLATION" | sed 's/.*property=\(C[0-9]*\).*/\1/' | sort -u | tr '\n' ' ')
-    echo "$id rc=$rc alarms: ${bad:-none}"
+    exp=$(grep "^$id " $HERE/benign/EXPECTED_ALARMS.txt 2>/dev/null | cut -d' ' -f2- )
+    if [ -n "$bad" ] && [ -n "$exp" ]; then echo "$id rc=$rc alarms: $bad (expected: $exp)"; else echo "$id rc=$rc alarms: ${bad:-none}"; fi
     echo "$out" | grep -A1 "violated:\|undecided:" | cut -c1-330 | head -12
   else echo "$id patch does not apply"; fi
   echo "$id done" >> /tmp/benign_seen
